@@ -24,7 +24,7 @@ import (
 	"verifharness/hxlib"
 )
 
-const ruleText = "three case families. seq: 12–40 protocol messages on one connection against 1–2 databases out of 7 (hashmap, hashmap+shadow-delete, bbolt, bbolt+shadow-delete, badger, fstree, sinkhole) or an unregistered name, pre-seeded with records of every dsd format / secret / crown-jewel / expired flag and native struct records; get/query/sub/qsub/cancel/create/update/insert/delete with unique, reused, empty and binary operation IDs, valid and invalid query texts (incl. where clauses), JSON-object, non-object, non-JSON and too-short payloads; each message runs to quiescence and its canonical reply batch is compared with the Lean model. fuzz: raw random byte strings and byte/segment mutations of valid messages. conc: scenarios where messages are issued without waiting, with forced cancel-vs-query / cancel-vs-subscribe / write-vs-subscription schedules and random yields; the recorded request/reply trace is decided by the Lean trace acceptor and the Go monitor. A case is non-trivial if it contains at least one reply other than a malformed/unknown-method error; distinct by the hash of its lines."
+const ruleText = "every message is handed to Handle as a window into a larger buffer (spare capacity 0 / 1 / 32 / 512 / 4096 bytes, filled with plausible request bytes; per connection fixed or mixed) that nothing touches afterwards, the send function keeps the reply slices it is given, and `late` lines (mid-case, before and after the teardown, at the end of every scenario) read all of them again: they must equal the copies taken at send time and the protocol monitor is run on the late reading too. three case families. seq: 12–40 protocol messages on one connection against 1–2 databases out of 7 (hashmap, hashmap+shadow-delete, bbolt, bbolt+shadow-delete, badger, fstree, sinkhole) or an unregistered name, pre-seeded with records of every dsd format / secret / crown-jewel / expired flag and native struct records; get/query/sub/qsub/cancel/create/update/insert/delete with unique, reused, empty and binary operation IDs, valid and invalid query texts (incl. where clauses), JSON-object, non-object, non-JSON and too-short payloads; each message runs to quiescence and its canonical reply batch is compared with the Lean model. fuzz: raw random byte strings and byte/segment mutations of valid messages. conc: scenarios where messages are issued without waiting, with forced cancel-vs-query / cancel-vs-subscribe / write-vs-subscription schedules and random yields; the recorded request/reply trace is decided by the Lean trace acceptor and the Go monitor. A case is non-trivial if it contains at least one reply other than a malformed/unknown-method error; distinct by the hash of its lines."
 
 type shadowRec struct {
 	fm                     byte
@@ -56,6 +56,35 @@ type caseGen struct {
 	noWhere  bool // the case contains inserts / native structs: where clauses could not be evaluated by the generator
 	noModel  bool
 	kind     string
+	capPol   int // request buffers: 0 not drawn yet, 1 mixed, 2 always 512 (gorilla's ReadMessage), 3 exact fit, 4 4096, 5 one spare byte
+}
+
+var spareClasses = []int{0, 1, 32, 512, 4096}
+
+// spare: the spare capacity behind the next message in its buffer (a request arrives in a reader's buffer, not in an
+// exact-fit literal)
+func (g *caseGen) spare() int {
+	if g.capPol == 0 {
+		g.capPol = 1 + g.rng.Intn(5)
+		if g.rng.Intn(2) == 0 {
+			g.capPol = 1
+		}
+	}
+	n := 0
+	switch g.capPol {
+	case 1:
+		n = spareClasses[g.rng.Intn(len(spareClasses))]
+	case 2:
+		n = 512
+	case 3:
+		n = 0
+	case 4:
+		n = 4096
+	default:
+		n = 1
+	}
+	g.r.Count(fmt.Sprintf("reqbuf-spare:%d", n))
+	return n
 }
 
 var kindOfDb = map[string]string{}
@@ -421,7 +450,7 @@ func (g *caseGen) msg(m []byte) {
 	if c.Kind != "malformed" && c.Kind != "unknown" {
 		g.nontriv = true
 	}
-	g.lines = append(g.lines, "m "+hx(m)+ann)
+	g.lines = append(g.lines, "m "+hx(m)+ann+fmt.Sprintf(" c=%d", g.spare()))
 }
 
 func (g *caseGen) seed(key string, fm byte, data []byte, flags string) {
@@ -477,7 +506,11 @@ func (g *caseGen) flush(emit func(hxlib.Case)) {
 		ann := fmt.Sprintf("q=%s:%s:%s", hx([]byte(q.DatabaseName())), hx([]byte(q.DatabaseKeyPrefix())), w)
 		g.lines[p.line] = strings.Replace(g.lines[p.line], "q=?", ann, 1)
 	}
-	g.lines = append(g.lines, "end")
+	// every reply once more, through the slices the send function was given: before and after the teardown
+	if g.rng.Intn(2) == 0 {
+		g.lines = append(g.lines, "late")
+	}
+	g.lines = append(g.lines, "end", "late")
 	emit(hxlib.Case{Lines: g.lines, NonTrivial: g.nontriv, Kind: g.kind, NoModel: g.noModel})
 }
 
@@ -553,6 +586,9 @@ func (g *caseGen) seqCase(emit func(hxlib.Case)) {
 				}
 				g.r.Count("seed:mid-case")
 			}
+		}
+		if g.rng.Intn(40) == 0 {
+			g.lines = append(g.lines, "late") // read the replies so far again, k further operations follow
 		}
 		op := g.newOp()
 		switch x := g.rng.Intn(100); {
